@@ -246,6 +246,7 @@ PROPS = {
     },
     "C05": {
         "level": "proof",
+        "context_prefix": "gen.pkg ",
         "extract": ["GenTypes", "Basic", "Encoding"],
         "extra_modules": ["QiVerif.Lemmas.Codec", "QiVerif.Lemmas.Decode"],
         "rule": "IDL packages (8, thorough 80; 40% small ones with one or two actions, the others with up to three structs "
@@ -261,7 +262,7 @@ PROPS = {
                 "result as returned to the caller), a signal through the helper (event as received by a generated "
                 "subscriber), a property through Set / the stub's callback / Get and through the helper's Update / Get; "
                 "values cross to the run as bytes of the documented layout written and read by an independent codec; "
-                "every answer is compared with the model's pipeline and with the value sent; 21 listed packages outside "
+                "every answer is compared with the model's pipeline and with the value sent; 23 listed packages outside "
                 "the class and the property of type any are run as well (known findings)",
         "assumptions": [
             "that the generated text compiles is established per generated package by the Go compiler (translation validation by "
